@@ -7,18 +7,19 @@ prop("C04",
                 "one failing provider call per move). Proved by an inductive invariant (11 conjuncts: store/memory coherence, "
                 "ownership of handed IPs by key AND uid, no foreign-uid record under a live key, unique fresh UIDs, lister "
                 "snapshots, dead events, ...) preserved by EVERY move and lifted over all finite histories: "
-                "live_bound_pod_keeps_ip_partial, no_unassign_for_live_pod_partial, late_event_keeps_ip_partial, fact_* "
+                "live_bound_pod_keeps_ip, no_unassign_for_live_pod, late_event_keeps_ip, fact_* "
                 "(regenerated guard/lock shapes). Counter theorems: live_bound_pod_keeps_ip_counter (model without the unbind "
                 "UID guard = fixed defect D2, replay corpus/C04/d2.ops), stale_lister_bind_counter and stale_record_counter "
-                "(the two places where the CURRENT code leaves the property).",
-     level_note="_partial: the theorems carry the decidable side conditions Galaxy.Plugin.assumed: non-empty names; a reload keeps "
-                "live pods' addresses configured (as the property says) and its fault does not hit a store delete; and at every "
-                "bind the pod lister shows the API server's incarnation and no record of another incarnation is stored under the "
-                "pod's key. The last condition is NOT guaranteed by the code: both counter histories break the real plugin "
-                "(known findings bind-with-stale-lister-stores-old-uid, stale-record-of-same-key-releases-live-pod-ip). "
+                "(models of the code before 'fix: bind stored a stale pod uid ...': the two defects this check found, now "
+                "fixed; their replays are regression histories).",
+     level_note="Scope of the theorems = the decidable side conditions Galaxy.Plugin.assumed, all within the property's own scope: "
+                "non-empty names, bind requests carry the pod UID, a reload keeps live pods' addresses configured (the property "
+                "says so). Beyond the property's quantifier the theorems also cover one failing apiserver/provider call per "
+                "move, except a failing store delete inside ConfigurePool (known finding "
+                "reload-delete-fault-resurrects-stale-record, replay corpus/C04/reload-delete-fault.ops). "
                 "Scalable custom resources (TApp with a scale subresource), Preempt and admin reservations are not modelled.",
      technique="Lean 4 inductive invariant over an executable model parameterised by regenerated structural facts (factgen plugin: "
-               "unbindChecksUID, bindChecksUID, release/resync re-read under lockPod, lister-then-apiserver, lockPod at six entry "
+               "unbindChecksUID, bindChecksUID, bindChecksListerUID, bindUidGuardCoversWholeKey, release/resync re-read under lockPod, lister-then-apiserver, lockPod at six entry "
                "points) + differential correspondence of every step (result class, observed choices, full digest of memory, "
                "store, pods, events, provider) of the REAL FloatingIPPlugin built in-process on fake clientsets behind "
                "call-counting fault-injecting decorators with harness-controlled listers; monitor = the C04 statement on the "
